@@ -369,7 +369,7 @@ func runC20(t *zsim.Tape, cfg *hlib.Config) *hlib.Outcome {
 	storm := ""
 	inv := func() error {
 		// a pool whose workers die as fast as they are started never becomes quiet: no correct run
-		// comes near a thousand worker start-ups (start-ups <= init + max + worker exits, and exits
+		// comes near six hundred worker start-ups (start-ups <= init + max + worker exits, and exits
 		// are bounded by the injected kills and the requests), so stop there instead of burning
 		// the whole step budget
 		for ; spawnSeen < len(k.Events); spawnSeen++ {
@@ -377,7 +377,7 @@ func runC20(t *zsim.Tape, cfg *hlib.Config) *hlib.Outcome {
 				spawns++
 			}
 		}
-		if storm == "" && spawns > 1000 {
+		if storm == "" && spawns > 600 {
 			storm = fmt.Sprintf("%d worker start-ups by t=%s", spawns, w.Now())
 			return fmt.Errorf("storm")
 		}
